@@ -406,13 +406,9 @@ def gen_case(r, idx, profile):
                     g.sn(pubcomp(mid))
 
     def sleep_cycle():
+        # (durations that are multiples of the keep-alive included: the pinger's last tick would coincide with
+        # the end of the sleep cycle - it must not be sent)
         d = r.choice([1, 2, 3, 7, 61, 90])
-        # a pinger tick must not coincide with the end of the sleep (select between two ready
-        # channels in the pinger goroutine would be a coin toss)
-        if ka == 1 and d > 1:
-            d = 1
-        while ka > 1 and d > ka and d % ka == 0:
-            d += 1
         g.sn(disconnect(d))
         g.asleep = True
         for _ in range(r.randint(0, 3)):
@@ -613,13 +609,16 @@ def gen_keepalive_case(r, idx):
             g.sn(puback(0x6162, mid, 0))
         else:
             # a sleep cycle: shorter or longer than the keep-alive, woken up in time
-            # (never a multiple of the keep-alive beyond it: the pinger's last tick and its cancellation
-            # would fall on the same instant, a coin toss in the pinger's select)
-            d = r.choice([1, ka - 1, ka, ka + 1, 2 * ka + 1, 4 * ka + 1])
+            d = r.choice([1, ka - 1, ka, ka + 1, 2 * ka, 2 * ka + 1, 4 * ka + 1])
             d = max(1, d)
             g.sn(disconnect(d), gap=step_gap())
             if r.random() < 0.25:
                 g.sn(disconnect(d), gap=r.choice([1, 3]))                   # the request repeated
+            if r.random() < 0.2:
+                # the sleep renewed for a longer time before it is over: the new duration counts from now
+                d2 = d + r.choice([ka + 1, 2 * ka + 1])
+                g.sn(disconnect(d2), gap=max(1, d * 10 // 2))
+                d = d2
             if r.random() < 0.3:
                 g.mq("publish dup=0 qos=0 retain=0 mid=0 topic=%s payload=%s" % (H(b'ab'), H(b'S')), gap=1)
             if r.random() < 0.15:
